@@ -14,6 +14,7 @@ type fakeConn struct {
 	in      []byte
 	closed  bool
 	closeCh chan struct{}
+	feedCh  chan struct{}
 	broken  bool // every Write fails (peer reset)
 }
 
@@ -24,20 +25,42 @@ func (c *fakeConn) breakWrites() {
 }
 
 func newFakeConn(in []byte) *fakeConn {
-	return &fakeConn{in: in, closeCh: make(chan struct{})}
+	return &fakeConn{in: in, closeCh: make(chan struct{}), feedCh: make(chan struct{}, 1)}
 }
 
 func (c *fakeConn) Read(b []byte) (int, error) {
-	c.mu.Lock()
-	if len(c.in) > 0 {
-		n := copy(b, c.in)
-		c.in = c.in[n:]
+	for {
+		c.mu.Lock()
+		if len(c.in) > 0 {
+			n := copy(b, c.in)
+			c.in = c.in[n:]
+			c.mu.Unlock()
+			return n, nil
+		}
 		c.mu.Unlock()
-		return n, nil
+		select {
+		case <-c.closeCh:
+			return 0, io.EOF
+		case <-c.feedCh:
+		}
 	}
+}
+
+// feed makes more input available to a blocked Read
+func (c *fakeConn) feed(b []byte) {
+	c.mu.Lock()
+	c.in = append(c.in, b...)
 	c.mu.Unlock()
-	<-c.closeCh
-	return 0, io.EOF
+	select {
+	case c.feedCh <- struct{}{}:
+	default:
+	}
+}
+
+func (c *fakeConn) isClosed() bool {
+	c.mu.Lock()
+	defer c.mu.Unlock()
+	return c.closed
 }
 
 func (c *fakeConn) Write(b []byte) (int, error) {
